@@ -10,8 +10,10 @@ MD5[LE64(seed) | K] keys both RC4 and HMAC-SHA1, enter_value RC4-encrypts the on
 that encrypted byte, into_proof finalises that MAC (A5); (d) the server-side check builds the
 verifier with (count, card.height, seed, card.width, K) in the parameter roles, visits rounds
 0..count in order, enters the digits of the addressed cell in order and compares all 20 bytes
-(A3/A2); accessors return the same-role fields.  NOT decided: distinctness of the challenged
-coordinates (selection without replacement), RC4/HMAC/MD5 internals."""
+(A3/A2); accessors return the same-role fields; (e) generate_coordinates is decided to be the
+draw-without-replacement algorithm (identity table, per round index = seed % remaining, close
+the gap, seed /= remaining; rules/algos.py).  NOT decided: the paper lemma that this algorithm
+yields distinct cells; RC4/HMAC/MD5 internals."""
 import cfg
 from rules import util, roles, arith
 from rules.arith import S, I
@@ -19,8 +21,8 @@ from rules.util import P, strip, canon, show_b
 from symex import show, walk
 
 EXPLANATION = __doc__
-TRUSTED = ["rustc / extractor", "md5, hmac, sha1 crates; RC4 (C09)", "slice::chunks(n) yields consecutive n-byte chunks in order (printing order)"]
-NOT_DECIDED = ["distinctness of the challenged coordinates", "RC4 / HMAC / MD5 internals"]
+TRUSTED = ["rustc / extractor", "md5, hmac, sha1 crates; RC4 (C09)", "slice::chunks(n) yields consecutive n-byte chunks in order (printing order)", "selection from a shrinking table (index = seed % remaining, gap closed) never repeats a cell"]
+NOT_DECIDED = ["that drawing index seed % remaining from a table and closing the gap yields distinct cells (paper lemma; the code is decided to BE that algorithm)", "RC4 / HMAC / MD5 internals"]
 FLOORS = {"cell-offset": 2, "printing-order": 1, "round-guard": 3, "transcript": 4, "server-check": 5, "accessor": 3, "distinct": 4}
 MC = "matrix_card::MatrixCard"
 MV = "matrix_card::MatrixCardVerifier"
